@@ -4,8 +4,13 @@ SSHStreamSession.data_received() appends it to the receive buffer: an EMPTY chun
 "no empty chunk" (needed by read(): n>0, not exact => at least one unit unless EOF) is broken by the writer:
 a reader blocked in read(n) is woken and returns '' - which every caller takes for end-of-file - although no EOF
 was received and the rest of the character arrives in the next packet.
-Failing obligation: C19.stream.SSHStreamSession.data_received#pre (requires len(data) >= 1) at the call site
-channel.SSHChannel._deliver_data, i.e. data_received's `no-empty-chunk` clause for data == ''.
+Failing obligation: C19.stream.SSHStreamSession.data_received#post(no-empty-chunk-left)   (counter-model: data == '')
+Proposed patch (stream.py, SSHStreamSession.data_received; verified with tools/mut.py):
+        def data_received(self, data, datatype):
+    +       if not data:
+    +           return
+            self._recv_buf[datatype].append(data)
+            ...
 Run: /venv/bin/python /verif/notes/findings/c19_empty_chunk_str_mode.py      (no network needed)"""
 import asyncio
 import codecs
